@@ -69,3 +69,17 @@ def lib_bytes(fn_name, value):
 
 def lib_load(fn_name, content):
     return (fn_name, content)
+
+
+def seq_fold(fn, init, xs):
+    """left fold:  fn(...fn(fn(init, xs[0]), xs[1])..., xs[n-1])"""
+    import functools
+    return functools.reduce(fn, xs, init)
+
+
+def str_strip(s):
+    return s.strip()
+
+
+def lib_text(fn_name, value):
+    return (fn_name, repr(value))
